@@ -14,5 +14,6 @@ INVARIANTS
   FirstViolated
   NeverWrapsInvalid
   PanicOnlyFromInvalidDefault
+  CellLemma
   EmitDecl
 CHECK_DEADLOCK FALSE
